@@ -202,7 +202,7 @@ def temperature_table(ctx, config, w):
 
 
 def run(ctx):
-    for config in ("f64-all", "dec-all"):
+    for config in ("f64-all", "dec-all") + (("f64-nostd", "dec-nostd") if ctx.tier == "thorough" else ()):
         w = ws.load(config)
         ctx.configs.append(config)
         generic_form(ctx, config, w.U)
